@@ -252,10 +252,11 @@ func reachesInstr(b *ssa.BasicBlock, to ssa.Instruction, stop map[ssa.Instructio
 }
 
 // errClass classifies an error-typed SSA value.
-//   GoAway  — connection error (NewGoAwayError / a package var initialised so)
-//   Reset   — stream error (NewResetStreamError / NewError)
-//   Nil     — nil
-//   Foreign — anything else (plain errors, sentinels)
+//
+//	GoAway  — connection error (NewGoAwayError / a package var initialised so)
+//	Reset   — stream error (NewResetStreamError / NewError)
+//	Nil     — nil
+//	Foreign — anything else (plain errors, sentinels)
 type errClassSet map[string]bool
 
 func (p *Prog) errClasses(v ssa.Value, depth int, seen map[ssa.Value]bool) errClassSet {
